@@ -263,3 +263,33 @@ func VH_C07_X2_kill_during_gc() {
 	s.st.Close()
 	_ = old
 }
+
+// C06-X1d: several hint splits per data file (split capacity 2): a kill after a flush that
+// followed a split rotation must not hide the flushed boundary record.
+func VH_C06_X1_kill_hint_splits() {
+	scenSplitCap = 2
+	s := newScen(1024, false, "ka", "kb", "kc", "kd")
+	cm := newCrashModel("ka", "kb", "kc", "kd")
+	point := []string{"flush:done", "flush:written-not-detached", "hint:after-dump", "hint:tmp-written", "set:after-tree"}[vrt.Choice("point", 5)]
+	occ := vrt.Choice("occurrence", 4)
+	var snap string
+	var durable map[string]int32
+	done := atPoint(point, occ, func() {
+		snap = vrt.SnapshotDir(s.dir)
+		durable = cm.snapshotDurable()
+	})
+	w := func(key string) { s.setS(key); cm.record(s, key) }
+	w("ka")
+	w("kb") // split 0 of file0 is full
+	s.flush()
+	cm.allDurable(s)
+	w("kc") // rotates to split 1: split 0 is dumped
+	s.flush()
+	cm.allDurable(s)
+	w("ka") // overwrite in split 1
+	w("kd") // fills file0 (four blocks), rotates the split again
+	s.flush()
+	cm.allDurable(s)
+	vrt.Assume(done())
+	cm.recoverAndCheck(s, snap, durable, true, "", false)
+}
